@@ -110,3 +110,44 @@ for _s in ("none", "plain", "subtyped"):
     for _c in (False, True):
         for _e in (False, True):
             _variant(_s, _c, _e)
+
+
+@contract(f"{FILE}::Module.is_complete", props=["C14"])
+class ModuleIsComplete:
+    """A module is reported complete only with starter, loader and carrier protein, or as a trans-AT module
+    (ketosynthase starter, no loader) with a carrier protein. Starter and loader are distinct components here
+    (a single component serving as both - the loader-only first module - is covered by the bounded part only)."""
+    params = {"self": Rec("Module", label="ModuleAnyState", _components=ListOf(COMP, 0, 2),
+                          _starter=Opt(STARTER), _loader=Opt(COMP), _modifications=ListOf(COMP, 0, 1),
+                          _carrier_protein=Opt(COMP), _end=Opt(COMP), _others=ListOf(COMP, 0, 2),
+                          _first_in_cds=Bool, _unambiguous_accept=Const(0))}
+    ensures = {
+        "complete-only-with-the-vital-parts": lambda self, result:
+            implies(result, self._carrier_protein is not None
+                    and ((self._starter is not None and self._loader is not None)
+                         or (self._starter is not None and self._loader is None
+                             and self._starter._domain._hit_id == "PKS_KS"))),
+        "the-three-vital-parts-suffice": lambda self, result:
+            implies(self._starter is not None and self._loader is not None and self._carrier_protein is not None
+                    and not (self._starter is self._loader and not self._first_in_cds), result),
+    }
+    returns = Bool
+
+
+@contract(f"{FILE}::Module.add_component", props=["C14"])
+class ModuleAddToEmptyNeverFails:
+    """'module construction never fails': build_modules_for_cds answers a refused component by opening a new,
+    empty module and adding the component there with an empty look-ahead - that call accepts every component."""
+    variant = True
+    params = {"self": Rec("Module", label="EmptyModule", _components=Const([]), _starter=Const(None), _loader=Const(None),
+                          _modifications=Const([]), _carrier_protein=Const(None), _end=Const(None), _others=Const([]),
+                          _first_in_cds=Bool, _unambiguous_accept=Const(0)),
+              "component": COMP, "lookahead": ListOf(COMP, 0, 0)}
+
+    def requires(self, component, lookahead):
+        return component.classification in ("A", "AT", "C", "S", "E", "KS", "+", "CP", "!", ".", "ignore")
+
+    ensures = {
+        "accepted-unless-ignored": lambda self, component:
+            len(self._components) == (0 if component.is_ignored() else 1),
+    }
